@@ -465,6 +465,35 @@ pub fn redo_renaming(id: &str, renamify_dir: &Path) -> Result<()> {
     let plan_json = fs::read_to_string(&plan_path)?;
     let mut plan: Plan = serde_json::from_str(&plan_json)?;
 
+    // Make sure the stored plan still fits every file BEFORE anything is touched: apply_plan edits
+    // file by file and does not roll content edits back when a later file no longer matches.
+    let mut stale_files = Vec::new();
+    let mut checked: HashMap<PathBuf, Option<String>> = HashMap::new();
+    for hunk in &plan.matches {
+        let content = checked
+            .entry(hunk.file.clone())
+            .or_insert_with(|| fs::read_to_string(&hunk.file).ok());
+        let fits = content
+            .as_deref()
+            .and_then(|c| c.get(hunk.start..hunk.end))
+            .is_some_and(|found| found == hunk.content);
+        if !fits && !stale_files.contains(&hunk.file) {
+            stale_files.push(hunk.file.clone());
+        }
+    }
+    if !stale_files.is_empty() {
+        return Err(anyhow!(
+            "Cannot redo '{}': {} file(s) changed since it was undone, nothing was touched ({})",
+            id,
+            stale_files.len(),
+            stale_files
+                .iter()
+                .map(|p| p.display().to_string())
+                .collect::<Vec<_>>()
+                .join(", ")
+        ));
+    }
+
     // Give the redo a new ID to avoid conflicts
     plan.id = format!("redo-{}-{}", id, chrono::Local::now().timestamp());
 
